@@ -16,10 +16,11 @@ for d in sorted(glob.glob(root + '/*/')):
         sigs = [l.split('signature: ')[1].strip() for l in txt.splitlines() if 'violation signature:' in l][:4]
         rc = 1 if 'VIOLATION property=' in txt else (2 if 'INCONCLUSIVE' in txt else 0)
         caught[b] = {"exit": rc, "signatures": sigs}
-    prop = am.get('property') or name.split('-')[0]
+    prop = name.split('-')[0]
     meta = {
         "name": name,
         "property": prop,
+        "seeding_round_tag": am.get('property'),
         "summary": am.get('summary'),
         "needs_to_manifest": am.get('needs'),
         "why_existing_tests_pass": am.get('why_tests_pass'),
